@@ -209,6 +209,15 @@ func (p *Prog) freshParamBase(fn *ssa.Function, base ssa.Value) bool {
 		} else {
 			args = c.Args
 		}
+		if idx < len(args) && !freshBase(args[idx], 0) && e.Caller.Func != fn && p.freshParamDepth < 3 {
+			// handed on by a helper that itself only ever gets fresh objects
+			p.freshParamDepth++
+			ok := p.freshParamBase(e.Caller.Func, args[idx])
+			p.freshParamDepth--
+			if ok {
+				continue
+			}
+		}
 		if idx >= len(args) || !freshBase(args[idx], 0) {
 			if debugE13 {
 				fmt.Printf("freshParamBase %s: caller %s passes %T %s\n", fn, e.Caller.Func, args[idx], Desc(args[idx]))
@@ -264,6 +273,46 @@ func drainsOld(st *ssa.Store, oldLoads []ssa.Value) bool {
 					found = true
 				}
 			}
+		}
+	})
+	if found {
+		return true
+	}
+	// ... or through a private polling helper (`for m := poll(oldQ); m != nil; m = poll(oldQ)`)
+	isOld := func(v ssa.Value) bool {
+		if ct, ok := v.(*ssa.ChangeType); ok {
+			v = ct.X
+		}
+		for _, o := range oldLoads {
+			if v == o {
+				return true
+			}
+		}
+		return false
+	}
+	EachInstr(st.Parent(), func(in ssa.Instruction) {
+		call, ok := in.(*ssa.Call)
+		if !ok || found || call.Call.IsInvoke() {
+			return
+		}
+		sc := call.Call.StaticCallee()
+		if sc == nil || sc.Blocks == nil {
+			return
+		}
+		for i, a := range call.Call.Args {
+			if !isOld(a) || i >= len(sc.Params) {
+				continue
+			}
+			par := sc.Params[i]
+			EachInstr(sc, func(i2 ssa.Instruction) {
+				if sel, ok := i2.(*ssa.Select); ok && !sel.Blocking {
+					for _, s := range sel.States {
+						if s.Dir == types.RecvOnly && s.Chan == ssa.Value(par) {
+							found = true
+						}
+					}
+				}
+			})
 		}
 	})
 	return found
@@ -416,7 +465,7 @@ func channelsNotShared(p *Prog, r *Report, R string, inPkg func(rel string) bool
 				return
 			}
 			// the other end of a pair created in the same function
-			if ofv, oowner, _ := loadedField(st.Val); ofv != nil && ofv != fv && oowner == f.owner && freshBase(fa.X, 0) {
+			if ofv, oowner, _ := loadedField(st.Val); ofv != nil && ofv != fv && oowner == f.owner && (freshBase(fa.X, 0) || p.freshParamBase(fn, fa.X)) {
 				r.OK(R, key, p.InstrPos(in), "the crossed queue of a pair: the other queue of an object of the same type, installed in an end that is still under construction")
 				return
 			}
